@@ -944,4 +944,168 @@ theorem run_track {sched : List Label} {s s' : Sys} {k c : Nat} {h : Handler}
       obtain ⟨hc1, h1', hk1, ht1⟩ := step_track hc hk ht h1
       exact ih hc1 hk1 ht1 hr
 
+/-! ### round 3: faults, plain handlers, further `Close` callers -/
+
+/-- The fault counters change only by their own labels. -/
+theorem hstep_faults {c mu r : Bool} {h h' : Handler} {l : HL} (hs : hstep c mu r h l = some h') :
+    (l ≠ .writeErr → h'.aborted = h.aborted) ∧ (l ≠ .hijack → h'.hijacked = h.hijacked) ∧
+    (l = .writeErr → h'.aborted = h.aborted + 1) ∧ (l = .hijack → h'.hijacked = h.hijacked + 1) := by
+  cases l <;> cases hpc : h.pc <;> simp [hstep, hpc, Pc.readable] at hs
+  all_goals (first | (obtain ⟨_, hs⟩ := hs; subst hs; simp) | (subst hs; simp))
+
+/-- No response write has failed and no modifier has hijacked on any connection. -/
+def NoFaults (s : Sys) : Prop := ∀ h ∈ s.hs, h.aborted = 0 ∧ h.hijacked = 0
+
+def Label.isFault : Label → Bool
+  | .h _ .writeErr | .h _ .hijack => true
+  | _ => false
+
+theorem step_noFaults {s s' : Sys} {l : Label} (hn : NoFaults s) (hl : l.isFault = false)
+    (hs : step s l = some s') : NoFaults s' := by
+  cases l with
+  | h k l =>
+    simp only [step] at hs
+    split at hs
+    · cases hs
+    · rename_i h hk
+      split at hs
+      · cases hs
+      · split at hs
+        · cases hs
+        · rename_i h' hh
+          cases hs
+          intro x hx
+          rcases List.mem_or_eq_of_mem_set hx with hx | hx
+          · exact hn x hx
+          · subst hx
+            have hf := hstep_faults hh
+            have h0 := hn h (List.mem_of_getElem? hk)
+            have h1 : l ≠ .writeErr := by intro e; subst e; simp [Label.isFault] at hl
+            have h2 : l ≠ .hijack := by intro e; subst e; simp [Label.isFault] at hl
+            exact ⟨by rw [hf.1 h1]; exact h0.1, by rw [hf.2.1 h2]; exact h0.2⟩
+  | accept =>
+    simp only [step] at hs
+    split at hs <;> cases hs
+    intro x hx
+    rcases List.mem_append.mp hx with hx | hx
+    · exact hn x hx
+    · simp at hx; subst hx; exact ⟨rfl, rfl⟩
+  | closeCall2 => simp only [step] at hs; cases hs; exact hn
+  | serveCheck => simp only [step] at hs; split at hs <;> cases hs; exact hn
+  | closeCall => simp only [step] at hs; split at hs <;> cases hs; exact hn
+  | closeChan => simp only [step] at hs; split at hs <;> cases hs; exact hn
+  | lock => simp only [step] at hs; split at hs <;> cases hs; exact hn
+  | waitZero => simp only [step] at hs; split at hs <;> cases hs; exact hn
+  | ret => simp only [step] at hs; split at hs <;> cases hs; exact hn
+  | closeChan2 => simp only [step] at hs; split at hs <;> cases hs; exact hn
+
+theorem run_noFaults {sched : List Label} {s s' : Sys} (hn : NoFaults s)
+    (hl : ∀ l ∈ sched, l.isFault = false) (hr : run s sched = some s') : NoFaults s' := by
+  induction sched generalizing s with
+  | nil => simp [run] at hr; subst hr; exact hn
+  | cons l ls ih =>
+    simp only [run] at hr
+    split at hr
+    · cases hr
+    · rename_i s1 h1
+      exact ih (step_noFaults hn (hl l (by simp)) h1) (fun x hx => hl x (by simp [hx])) hr
+
+/-- A handler from which no tunnel can arise without a new request: it is not waiting for a peer, not
+inside the CONNECT-only steps, and the exchange it is in (if any) is not a CONNECT. -/
+def Handler.plain (h : Handler) : Bool :=
+  !h.pc.peerBlocked && h.pc != .dialing && h.pc != .cwriting &&
+    (!(h.pc.inExchange || h.pc == .haveReq) || h.conn == .no)
+
+theorem hstep_plain {c mu r : Bool} {h h' : Handler} {l : HL} (hs : hstep c mu r h l = some h')
+    (hp : h.plain = true) (hl : l ≠ .gotConnect) : h'.plain = true := by
+  cases l <;> cases hpc : h.pc <;> simp [hstep, hpc, Pc.readable] at hs
+  all_goals (first | (exact absurd rfl hl) | skip)
+  all_goals (first | (obtain ⟨hc, hs⟩ := hs; subst hs) | (subst hs))
+  all_goals (simp [Handler.plain, hpc, Pc.peerBlocked, Pc.inExchange] at hp ⊢)
+  all_goals (first
+    | done
+    | (simp_all; done)
+    | (cases c <;> simp [Pc.peerBlocked, Pc.inExchange]; done)
+    | (split <;> simp_all [Pc.peerBlocked, Pc.inExchange]; done)
+    | (rename_i b; cases b <;> simp_all [Pc.peerBlocked, Pc.inExchange]))
+
+def AllPlain (s : Sys) : Prop := ∀ h ∈ s.hs, h.plain = true
+
+theorem step_allPlain {s s' : Sys} {l : Label} (hp : AllPlain s) (hl : ∀ k, l ≠ .h k .gotConnect)
+    (hs : step s l = some s') : AllPlain s' := by
+  cases l with
+  | h k l =>
+    simp only [step] at hs
+    split at hs
+    · cases hs
+    · rename_i h hk
+      split at hs
+      · cases hs
+      · split at hs
+        · cases hs
+        · rename_i h' hh
+          cases hs
+          intro x hx
+          rcases List.mem_or_eq_of_mem_set hx with hx | hx
+          · exact hp x hx
+          · subst hx
+            exact hstep_plain hh (hp h (List.mem_of_getElem? hk)) (by intro e; subst e; exact hl k rfl)
+  | accept =>
+    simp only [step] at hs
+    split at hs <;> cases hs
+    intro x hx
+    rcases List.mem_append.mp hx with hx | hx
+    · exact hp x hx
+    · simp at hx; subst hx; rfl
+  | closeCall2 => simp only [step] at hs; cases hs; exact hp
+  | serveCheck => simp only [step] at hs; split at hs <;> cases hs; exact hp
+  | closeCall => simp only [step] at hs; split at hs <;> cases hs; exact hp
+  | closeChan => simp only [step] at hs; split at hs <;> cases hs; exact hp
+  | lock => simp only [step] at hs; split at hs <;> cases hs; exact hp
+  | waitZero => simp only [step] at hs; split at hs <;> cases hs; exact hp
+  | ret => simp only [step] at hs; split at hs <;> cases hs; exact hp
+  | closeChan2 => simp only [step] at hs; split at hs <;> cases hs; exact hp
+
+theorem plain_not_blocked {h : Handler} (hp : h.plain = true) : h.pc.peerBlocked = false := by
+  simp [Handler.plain] at hp
+  exact hp.1.1.1
+
+/-- Bookkeeping of the further `Close` callers: every such call is still pending or has panicked. -/
+def CallsOk (s : Sys) : Prop := s.calls2 = s.extra + s.panics
+
+theorem step_callsOk {s s' : Sys} {l : Label} (hc : CallsOk s) (hs : step s l = some s') : CallsOk s' := by
+  cases l with
+  | h k l =>
+    simp only [step] at hs
+    split at hs
+    · cases hs
+    · split at hs
+      · cases hs
+      · split at hs <;> cases hs
+        exact hc
+  | closeCall2 => simp only [step] at hs; cases hs; simp only [CallsOk] at hc ⊢; omega
+  | closeChan2 =>
+    simp only [step] at hs
+    split at hs <;> cases hs
+    rename_i hx
+    simp only [CallsOk] at hc ⊢
+    omega
+  | accept => simp only [step] at hs; split at hs <;> cases hs; exact hc
+  | serveCheck => simp only [step] at hs; split at hs <;> cases hs; exact hc
+  | closeCall => simp only [step] at hs; split at hs <;> cases hs; exact hc
+  | closeChan => simp only [step] at hs; split at hs <;> cases hs; exact hc
+  | lock => simp only [step] at hs; split at hs <;> cases hs; exact hc
+  | waitZero => simp only [step] at hs; split at hs <;> cases hs; exact hc
+  | ret => simp only [step] at hs; split at hs <;> cases hs; exact hc
+
+theorem run_callsOk {sched : List Label} {s s' : Sys} (hc : CallsOk s) (hr : run s sched = some s') : CallsOk s' := by
+  induction sched generalizing s with
+  | nil => simp [run] at hr; subst hr; exact hc
+  | cons l ls ih =>
+    simp only [run] at hr
+    split at hr
+    · cases hr
+    · rename_i s1 h1
+      exact ih (step_callsOk hc h1) hr
+
 end Martian.Shutdown
